@@ -532,8 +532,16 @@ def gen_query_c37(rng, mi):
                 lab.append(b"k" * max(1, min(63, room - 1)))
         return lab
 
+    # many minimal questions (the root name is a single octet: a question of 5 octets, the smallest there is) - sizing
+    # heuristics of the form "at most remaining/N questions" are exact only for the right N (seed C37-4)
+    shortq = rng.random() < 0.04
+    if shortq:
+        nq = rng.choice([12, 13, 17, 18, 19, 30, 60, 120, 200])
     for qi in range(nq):
-        put_name(some_labels(b"m%dq%d" % (mi, qi)))
+        if shortq:
+            put_name([] if rng.random() < 0.8 else [b"a"], allow_ptr=False)
+        else:
+            put_name(some_labels(b"m%dq%d" % (mi, qi)))
         body.extend(struct.pack(">HH", rng.choice([1, 28, 12, 255, rng.randrange(65536)]), rng.choice([1, 1, 255, rng.randrange(65536)])))
     cnt = [nq, 0, 0, 0]
 
